@@ -111,3 +111,18 @@ def wrap_xml(decl, tdecl='int v;', params='', inv='x <= 3', guard='g == 1', sync
             '<transition controllable="false" action=""><source ref="id0"/><target ref="id1"/><label kind="select">%s</label><label kind="guard">%s</label><label kind="synchronisation">%s</label>'
             '<label kind="assignment">%s</label><nail x="1" y="2"/></transition><transition><source ref="id1"/><target ref="id2"/></transition><transition><source ref="id2"/><target ref="id0"/><label kind="probability">2</label></transition>'
             '</template><system>%s</system>%s</nta>') % (esc(decl), esc(params), esc(tdecl), esc(inv), esc(select), esc(guard), esc(sync), esc(assign), esc(system), extra)
+
+
+def long_token(rng, text):
+    """a very long identifier, number or string literal spliced into the text (the lexer's fixed token buffers)"""
+    n = rng.choice([3999, 4000, 4001, 4002, 4100, 9000, 70000])
+    kind = rng.random()
+    tok = ('q' + 'a' * (n - 1)) if kind < 0.5 else (('7' * n) if kind < 0.7 else ('"' + 'z' * n + '"'))
+    toks = tokens(text)
+    cand = [i for i, t in enumerate(toks) if re.match(r'^[A-Za-z_]\w*$', t) and t not in POOL] or list(range(len(toks))) or [0]
+    k = rng.choice(cand)
+    if toks:
+        toks[k] = tok
+    else:
+        toks = [tok]
+    return join(toks)
